@@ -4,15 +4,20 @@ Obligations: theorems of lean/OmplModel/Props/C01.lean (L0 reporting layer, L1 o
 kernel-checked, audited).
 
 Correspondence / conformance, all against the REAL planners of the current tree (harness/planners.cpp):
- (a) RRT lock-step: the harness records every state the sampler / the goal handed to RRT (recording sampler
-     allocator + recording goal wrapper, NearestNeighborsLinear installed); the Lean model `drv_rrt` replays
-     the draws and must reproduce the tree (insertion order, parents, state bits), the path, the status and the
-     problem-definition flags.
+ (a) RRT and RRTConnect lock-step: the harness records every state the sampler / the goal handed to the planner
+     (recording sampler allocator + recording goal wrapper, NearestNeighborsLinear installed); the Lean models
+     (`drv_rrt`) replay the draws and must reproduce the tree(s) (insertion order, parents, roots, state bits), the
+     path, the status, the problem-definition flags and the input-state counters.
  (b) every shipped geometric planner (+ the multilevel QRRT/QRRTStar/QMP/QMPStar) x random and adversarial
      environments x seeds x evaluation budgets through the spec oracle `path_is_real` below, which recomputes
      bounds, validity and (where elementary) distances itself from the raw numbers the harness prints.
 
-Planners other than RRT are covered ONLY on the runs explored here.
+ (c) the unobserved-gap attack (DESIGN 1.4): the harness attributes the queried-valid states of the transcript to the
+     edges of the reported path; an edge with an unqueried stretch longer than 2 x resolution gets a thin obstacle inside
+     that stretch (touching no queried state), the same planner is re-run with the same seed and budget and the (same,
+     now invalid) path is reported as the failing input.
+
+Planners other than RRT and RRTConnect are covered ONLY on the runs explored here.
 """
 import concurrent.futures
 import math
@@ -771,8 +776,8 @@ def judge(ck, hbin, p, R=None, attack=True):
         status = "hang"
         ck.notes.append("hang: %s %s seed=%d budget=%d" % (p.planner, p.tag, p.seed, p.budget))
         ck.extra_cov.setdefault("hangs", []).append("%s [%s seed=%d budget=%d]" % (p.planner, p.tag, p.seed, p.budget))
-        ck.log("HANG (C03's subject, no status for C01 to judge): %s [%s seed=%d budget=%d] neither returned nor polled its "
-               "termination condition within %d s" % (p.planner, p.tag, p.seed, p.budget, WATCHDOG[0]))
+        ck.log("HANG (C03's subject, no status for C01 to judge): %s [%s seed=%d budget=%d] did not return within the "
+               "%d s watchdog (stuck without polling its termination condition, or far too slow)" % (p.planner, p.tag, p.seed, p.budget, WATCHDOG[0]))
     elif status == "crash" or ((not R.get("done") or R.get("rc") != 0) and not R.get("na")):
         status = "crash"
         err = [l for l in (R.get("stderr") or "").splitlines() if "SUMMARY" in l]
@@ -999,9 +1004,10 @@ def setup(ck):
 def pollcap_for(name, budget, which=None):
     """termination-condition polls allowed (the second, time-free stop criterion next to the evaluation budget).
     AnytimePathShortening's main thread busy-polls the condition while its worker planners run, so a poll cap would end
-    the run before they did anything: it is bounded by the evaluation budget (and the watchdog) only."""
+    the run before they did anything: its cap is so large (2e7 polls, a few seconds of spinning) that it only matters
+    when every worker has given up (e.g. no valid start) and the main thread would spin forever."""
     if name == "AnytimePathShortening":
-        return 10 ** 12
+        return 2 * 10 ** 7
     if which == "goal-in-obstacle":
         return 300          # planners wait (sleeping 10 ms per poll) for a valid goal sample
     return budget + 600
@@ -1055,17 +1061,24 @@ def plan_thorough(ck, names):
 
 
 def lockstep_jobs(ck, n):
+    """half RRT, half RRTConnect (the two fully modelled planners)"""
     jobs = []
     r = ck.rng.fork("lockstep")
     for i in range(n):
+        planner = "RRT" if i % 2 == 0 else "RRTConnect"
         env = gen_env(r, r.choice(["rv2", "rv2", "rv3"]))
         ext = extent(env)
         rng = r.choice([None, None, 0.0, 0.003 * ext, 0.05 * ext, 0.5 * ext, 3.0 * ext])
-        if i % 7 == 3:
-            env = gen_adversarial(r, r.choice(["bad-starts", "zero-threshold", "goal-in-obstacle", "thin-corridor", "start-on-bounds"]))
+        adv = None
+        if i % 7 in (3, 4):
+            adv = r.choice(["bad-starts", "zero-threshold", "goal-in-obstacle", "thin-corridor", "start-on-bounds", "start-is-goal"])
+            env = gen_adversarial(r, adv)
         iters = r.choice([0, 1, 7, 60, 300, 1500]) if rng != 0.003 * ext else r.choice([60, 300, 600])
-        jobs.append(env.clone(planner="RRT", mode="lockstep", seed=r.below(100000), budget=iters, pollcap=0, rng=rng,
-                              interm=r.below(2), bias=r.choice([None, 0.05, 0.3, 0.0, 1.0]), tag="lockstep"))
+        if adv == "goal-in-obstacle" and planner == "RRTConnect":
+            iters = min(iters, 60)      # nextGoal(ptc) sleeps 10 ms per waiting turn on an invalid goal
+        jobs.append(env.clone(planner=planner, mode="lockstep", seed=r.below(100000), budget=iters, pollcap=0, rng=rng,
+                              interm=r.below(2), bias=(r.choice([None, 0.05, 0.3, 0.0, 1.0]) if planner == "RRT" else None),
+                              tag="lockstep"))
     return jobs
 
 
@@ -1077,7 +1090,8 @@ def run(ck):
     ck.trusted += ["harness/planners.cpp: recording validity checker / sampler / goal wrappers, derived class PeekRRT reading RRT's protected tree",
                    "the spec oracle's own geometry (Python doubles): bounds, box collision, R^n/SE(2)/SE(3) distances, segment/box intersection",
                    "Dubins / Reeds-Shepp runs: goal and edge distances are taken from the library (C14's subject)",
-                   "planners other than RRT have no Lean model: they are covered only on the runs explored by this check"]
+                   "planners other than RRT and RRTConnect have no Lean model: they are covered only on the runs explored by this check",
+                   "attribution of queried states to path edges (discipline lines) uses the library's distance function"]
     ck.assumptions += ["state validity is a pure function of the state (box environments)",
                        "interpolation is geodesic for the spaces used (C07), so curve length along an edge is t * distance",
                        "the strict form is demanded only of planners not listed in NOT_STRICT (reasons given there)"]
@@ -1095,7 +1109,7 @@ def run(ck):
     jobs = plan_quick(ck, names) if ck.tier == "quick" else plan_thorough(ck, names)
     ck.log("%d planner runs on %d workers" % (len(jobs), workers))
     pfut = [ex.submit(run_problem, ck, hbin, p) for p in jobs]
-    ljobs = lockstep_jobs(ck, 40 if ck.tier == "quick" else 400) if ck.lean_ok else []
+    ljobs = lockstep_jobs(ck, 60 if ck.tier == "quick" else 500) if ck.lean_ok else []
     lfut = [ex.submit(lockstep_one, ck, hbin, p) for p in ljobs]
 
     # ---- corpus first
@@ -1123,10 +1137,12 @@ def run(ck):
         for p, (ok, what, impl, mod, R) in zip(ljobs, results):
             ck.traces_validated += 1
             ntree = 0
-            if impl and len(impl) > 1 and impl[1].startswith("tree n="):
-                ntree = int(impl[1].split()[1][2:])
+            for ln in (impl or [])[1:3]:
+                if ln.startswith(("tree n=", "treeS n=", "treeG n=")):
+                    ntree += int(ln.split()[1][2:])
             ck.case(p.key(), ntree >= 10)
             ck.count("lockstep-runs")
+            ck.count("lockstep-runs:" + p.planner)
             ck.count("lockstep-tree-nodes", ntree)
             ck.count("lockstep-draws", len(R.get("draws", [])))
             ck.count("lockstep:status:" + str(R.get("status")))
@@ -1152,8 +1168,8 @@ def run(ck):
             if not found:
                 ck.report({"engine": "rrt", "what": "model/implementation disagreement: " + str(what)}, script=p.script(),
                           expected=[m[:2000] for m in mod], observed=[m[:2000] for m in impl], found_input=False, engine="rrt",
-                          obligation="correspondence RRT.cpp vs OmplModel.Model.RRT (lock-step: %s)" % what)
-            ck.log("lock-step disagreement (%s) seed=%d iters=%d interm=%s" % (what, p.seed, p.budget, p.interm))
+                          obligation="correspondence %s.cpp vs OmplModel.Model.%s (lock-step: %s)" % (p.planner, p.planner, what))
+            ck.log("lock-step disagreement %s (%s) seed=%d iters=%d interm=%s" % (p.planner, what, p.seed, p.budget, p.interm))
 
     # ---- (b) all planners through the spec oracle
     results = [f.result() for f in pfut]
@@ -1196,20 +1212,23 @@ MANIFEST = {
     "engine": "planners",
     "category": "proof",
     "design_ref": "DESIGN.md 2.1",
-    "text": "Lean 4 theorems: (L0) the reporting layer shared by all planners (status truth table, PlannerInputStates "
+    "text": "Lean 4 theorems (24): (L0) the reporting layer shared by all planners (status truth table, PlannerInputStates "
             "nextStart/nextGoal filter and counters, PathGeometric::check, addSolutionPath bookkeeping); (L1) planners as oracle "
             "machines (run_congr, unasked_flip, undisciplined_refutable: unqueried stretches cannot be vouched for; "
             "checked_points_valid / discipline_sound: queried-valid points are valid and dense valid queries bound every invalid "
             "stretch); (L2) an executable model of geometric::RRT::solve with rrt_tree_inv and rrt_solution_real proved for every "
-            "script of draws, validity predicate, goal, threshold, range and interruption point, tied to RRT.cpp by bit-exact "
-            "lock-step replay of recorded sampler/goal draws (tree, path, status, flags). Trace conformance: all 41 shipped "
+            "script of draws, validity predicate, goal, threshold, range and interruption point, plus rrt_inbounds; (L2b) the same for "
+            "geometric::RRTConnect::solve/growTree (two trees, connect loop, path assembly from both trees, intermediate states: "
+            "rrtconnect_tree_inv, rrtconnect_solution_real, rrtconnect_path_checks); both models are tied to the C++ by bit-exact "
+            "lock-step replay of recorded sampler/goal draws (trees, path, status, flags). Trace conformance: all 41 shipped "
             "geometric planners and 4 multilevel planners are run on random and adversarial box environments and every reported "
             "solution is judged by an independent spec oracle (valid in-bounds start, bounds, goal/approximate/difference/status "
             "consistency, no invalid stretch longer than twice the resolution length, and for planners in the strict table every "
-            "consecutive pair passes the motion check again; non-solution statuses add no path).",
-    "note": "Planners other than RRT are covered only on the runs explored (sampled seeds, environments, budgets); the theorems "
+            "consecutive pair passes the motion check again; non-solution statuses add no path), including Dubins and Reeds-Shepp "
+            "spaces for the planners that support them, and the constructive unobserved-gap attack on every solved run.",
+    "note": "Planners other than RRT and RRTConnect are covered only on the runs explored (sampled seeds, environments, budgets); the theorems "
             "reduce their soundness to a per-run discipline which is observed, not proved. Trusted: Lean kernel, the three "
-            "standard axioms, the hand-written RRT model outside the lock-step runs, the harness's recording wrappers, the "
+            "standard axioms, the hand-written RRT / RRTConnect models outside the lock-step runs, the harness's recording wrappers, the "
             "oracle's own geometry in Python, OMPL's Dubins/Reeds-Shepp distances where used.",
     "technique": "Lean 4 proof (oracle machines; invariant by induction over the sample script) + lock-step differential "
                  "correspondence + trace conformance against an independent spec oracle",
